@@ -249,6 +249,12 @@ def removal_span_rule(fb, it):
     lastp1 = rng is not None and isinstance(rng[1], tuple) and (
         (rng[1][0] == "call" and rng[1][1].endswith("Add<usize>>::add") and len(rng[1][2]) == 2 and rng[1][2][0] == lastL and cint(rng[1][2][1]) == 1)
         or (rng[1][:2] == ("bin", "Add") and rng[1][2] == lastL and cint(rng[1][3]) == 1))
+    if not lastp1 and what != "indices" and rng is not None and isinstance(rng[1], tuple) and rng[1][0] == "call" and re.search(r"::min$", rng[1][1]) and len(rng[1][2]) == 2:
+        # on the restricted list every element is below leaves_set(): clamping last + 1 at leaves_set() changes nothing
+        a, b = rng[1][2]
+        isls = lambda t: isinstance(t, tuple) and t and t[0] == "call" and t[1].endswith("::leaves_set")
+        isl1 = lambda t: isinstance(t, tuple) and ((t[0] == "call" and t[1].endswith("Add<usize>>::add") and t[2][0] == lastL and cint(t[2][1]) == 1) or (t[:2] == ("bin", "Add") and t[2] == lastL and cint(t[3]) == 1))
+        lastp1 = (isl1(a) and isls(b)) or (isl1(b) and isls(a))
     if rng is None or rng[0] != first or not lastp1:
         return False, ("the span is %s .. %s, specification exactly L[0] .. last(L) + 1 for the removal list L (a shorter span leaves removed positions in place and can hand the "
                        "storage tree an empty batch; a longer one rewrites positions outside the removal set)" % (sh(rng[0], 60) if rng else None, sh(rng[1], 120) if rng else None))
